@@ -414,6 +414,7 @@ type simI interface {
 	Describe() string
 	Starved() time.Duration
 	Choose(n int) int
+	Fair()
 }
 
 type tokenSim struct{ *vrt.Sim }
@@ -448,6 +449,7 @@ func (p *plainSim) Notef(format string, a ...any) {
 }
 func (p *plainSim) Describe() string              { return " (runtime-scheduled run: no goroutine table)" }
 func (p *plainSim) Starved() time.Duration        { return 0 }
+func (p *plainSim) Fair()                         {}
 func (p *plainSim) Choose(n int) int {
 	if n <= 1 {
 		return 0
@@ -504,6 +506,7 @@ type callsRun struct {
 	pendingCalls int
 	faultsFired int
 	lastProgress time.Duration
+	fairOn  bool // the schedule is fair from here on: the no-progress watchdog is meaningful
 	phase   string
 }
 
@@ -1102,6 +1105,13 @@ func (r *callsRun) body(s simI) {
 	})
 	<-faultsDone
 	vrt.Yield("harness.faults.done")
+	// faults have stopped: from here on liveness is judged, which needs a fair schedule and a clock that
+	// does not run away while goroutines are runnable
+	s.Fair()
+	r.mu.Lock()
+	r.fairOn = true
+	r.progress()
+	r.mu.Unlock()
 	wait := func(phase string, limit time.Duration, cond func() bool) bool {
 		r.setPhase(phase)
 		deadline := s.Now() + limit
@@ -1249,7 +1259,7 @@ func callsExec(t *testing.T, sc callsScenario, tape *vrt.Tape, keepLog bool) (ou
 		for si := range r.servers {
 			r.checkReqMem(si, "quiescent point")
 		}
-		if s.Now()-r.lastProgress > callsStuckAfter {
+		if r.fairOn && s.Now()-r.lastProgress > callsStuckAfter {
 			r.fail("C38/stuck", fmt.Sprintf("no progress for %v of simulated time in phase %q; pending: %s; goroutines:%s", callsStuckAfter, r.phase, r.describePending(), s.Describe()))
 		}
 	}
@@ -1298,7 +1308,7 @@ func callsExecRace(t *testing.T, r *callsRun) (out vrt.RunOut) {
 						for si := range r.servers {
 							r.checkReqMem(si, "monitor tick")
 						}
-						if ps.Now()-r.lastProgress > callsStuckAfter {
+						if r.fairOn && ps.Now()-r.lastProgress > callsStuckAfter {
 							r.fail("C38/stuck", fmt.Sprintf("no progress for %v of simulated time in phase %q; pending: %s", callsStuckAfter, r.phase, r.describePending()))
 						}
 					}
